@@ -45,7 +45,7 @@ class ThermochemGroupAdditive(ThermochemBase):
             Map from :class:`Group` to int specifying counts of each group in
             the chemical structure.
         """
-        self.name = lib.name
+        self.name = getattr(lib, 'name', None)
         self.correlations = []
         common_min = None
         common_max = None
